@@ -318,16 +318,21 @@ func (m *MdnsManager) SetAutoAccept(accept bool) {
 // Returns a safe to use key value pair for the QR code text in the proper format
 // according to SHIP Requirements for Installation Process V1.0.0
 func (m *MdnsManager) safeQRCodeKeyValue(key, value string) string {
-	if len(value) > 0 {
-		// make sure the value contains no ; chars
-		value = strings.ReplaceAll(value, ";", "")
+	// make sure the value contains no ; chars
+	value = m.safeQRCodeValue(value)
 
+	if len(value) > 0 {
 		// make sure the keys are all uppercase
 		key = strings.ToUpper(key)
 		return fmt.Sprintf("%s:%s;", key, value)
 	}
 
 	return ""
+}
+
+// Returns a value which is safe to be used in the QR code text, the field separator ; is removed
+func (m *MdnsManager) safeQRCodeValue(value string) string {
+	return strings.ReplaceAll(value, ";", "")
 }
 
 // Returns the device categories as a string, with categories separated by commas
@@ -367,7 +372,7 @@ func (m *MdnsManager) QRCodeText() string {
 		optionals += m.safeQRCodeKeyValue("CAT", m.deviceCategoriesString(m.deviceCategories))
 	}
 
-	qrcode := fmt.Sprintf("SHIP;SKI:%s;ID:%s;%sENDSHIP;", m.ski, m.identifier, optionals)
+	qrcode := fmt.Sprintf("SHIP;SKI:%s;ID:%s;%sENDSHIP;", m.safeQRCodeValue(m.ski), m.safeQRCodeValue(m.identifier), optionals)
 
 	return qrcode
 }
